@@ -124,12 +124,13 @@ prop(
 
 prop(
     "C04",
-    ["LolHtml.Thm.C04_VM", "LolHtml.Thm.C04_Pure", "LolHtml.Thm.Full", "LolHtml.Thm.Full3"],
+    ["LolHtml.Thm.C04_VM", "LolHtml.Thm.C04_Pure", "LolHtml.Thm.Full", "LolHtml.Thm.Full3", "LolHtml.Thm.Full18", "LolHtml.Thm.Full19", "LolHtml.Thm.Full20"],
     [{"lane": "sel", "n_quick": 1500, "n_thorough": 20000},
      {"lane": "selpure", "n_quick": 2000, "n_thorough": 40000},
      {"lane": "full", "n_quick": 2000, "n_thorough": 40000}],
     "lane sel: selector sets printed from the model's AST grammar (type, *, #id, .class, six attribute operators with i/s, :nth-*, :not() with simple/compound/list/nested arguments, child and descendant combinators, lists) x tag-event scripts (mis-nested, stray end tags, voids, case variants, duplicate attributes, foreign self-closing, ESI) x cuts: model VM vs real HtmlRewriter hits, Spec.Css vs an independent Rust reference matcher, Lean printer vs the text fed to the real parser, predicted vs actual Ast dump; lane selpure: nth triples incl. extreme offsets, attribute operators x case flags x namespaces x empty operands, id/class/exists",
-    ["CSS text parsing (crates selectors/cssparser) is not modelled: the model starts from the component list; the lane compares the printed text and the Ast dump",
+    ["END TO END on raw bytes (Thm/Full18-20): for lexer-mode configurations (a document-level text/comment/doctype handler) the controller state after a successful byte-level run of the whole model is ctlSteps over an extracted list of well-formed controller events (Full_events_lexer, Full_events_writes/_end), the controller's VM runs Vm.runAux on its tag events and the hits are exactly Spec.Css.run on them (C04_real, C04_real_lexer; C04_real_no_panic for every selector set); for configurations without text handlers the invocation log and the VM are the same for every chunking of a document (C04_real_chunk_independent(_log), via C02_chunk_invariance_R); the scanner-mode event list is a statement (Full_events_statement; C04_real_partial derives C04_real_statement from it)",
+     "CSS text parsing (crates selectors/cssparser) is not modelled: the model starts from the component list; the lane compares the printed text and the Ast dump",
      "the :not() restriction of C04_vm_refines_css (arguments are single simple selectors or lists of them) is finding F3, proved necessary by C04_vm_refines_css_statement_false",
      "memory limiter, i32 overflow of a child counter after 2^31-1 siblings, more than 31 selectors are not modelled", PKG_SCOPE],
     level_text=("Lean 4 theorems: compiler-correctness style refinement C04_vm_refines_css — for every selector set whose :not() "
@@ -147,12 +148,13 @@ prop(
 
 prop(
     "C05",
-    ["LolHtml.Thm.C05_Scope", "LolHtml.Thm.Full", "LolHtml.Thm.Full3"],
+    ["LolHtml.Thm.C05_Scope", "LolHtml.Thm.Full", "LolHtml.Thm.Full3", "LolHtml.Thm.Full18", "LolHtml.Thm.Full19"],
     [{"lane": "scope", "n_quick": 2000, "n_thorough": 10000},
      {"lane": "full", "n_quick": 2000, "n_thorough": 40000},
      {"lane": "metacs", "n_quick": 2000, "n_thorough": 20000, "impl_only": True}],
     "lane metacs (implementation only): ASCII documents with <meta charset> / http-equiv tags anywhere, run with adjust_charset_on_meta_tag off and on (the setting registers an internal `meta` element handler in front of the user's, shifting every handler index): the user's element / end-tag / comment / text handler invocations and the sink bytes must be identical; lane scope: tag-event scripts (unclosed, mis-nested, void, foreign self-closing, removed content) x handler registrations (element/text/comments/end-tag/document) x cuts, real HtmlRewriter with logging handlers vs the model",
-    ["the matcher is an arbitrary function from start tags to sets of registered match ids (WfEvents); that the VM returns only registered ids is C04's; the link is Thm/Full3: every protocol event of the real controller model that ends without error is exactly one Controller.step of this package's model on the projected state (Full_refines_scope_start/_end/_other), its handler invocations are Spec.Scope.expected (Full_event_C05), and the VM inside follows selvm's Vm.step (Full_vm_run) — lexer-mode calls; scanner hints rely on C06's relex agreement",
+    ["END TO END on raw bytes (Thm/Full19): C05_real — for lexer-mode configurations the event list of the byte-level run has a trace in which every event is one Controller.step of the scope model on the real controller's state, every event's invocations equal Spec.Scope.expected for the elements open before it and the open elements evolve by openStep (text/comment handlers with a selector receive exactly the tokens delivered while a matched element is open; end-tag handlers run at the end-tag event that pops their element and never again); scanner mode: C05_real_partial from Full_events_statement",
+     "the matcher is an arbitrary function from start tags to sets of registered match ids (WfEvents); that the VM returns only registered ids is C04's; the link is Thm/Full3: every protocol event of the real controller model that ends without error is exactly one Controller.step of this package's model on the projected state (Full_refines_scope_start/_end/_other), its handler invocations are Spec.Scope.expected (Full_event_C05), and the VM inside follows selvm's Vm.step (Full_vm_run) — lexer-mode calls; scanner hints rely on C06's relex agreement",
      "handler/memory errors and ESI tags are not modelled in package scope (lane full covers failing handlers; lane sel covers ESI); the meta-charset handler's id shift is covered by the implementation-only lane metacs", PKG_SCOPE],
     level_text=("Lean 4 theorems, for every handler script, registration, event list and matcher: the controller model refines a "
                 "reference scope specification (C05_refines), user counts equal the number of open matched elements "
@@ -404,11 +406,12 @@ prop(
 
 prop(
     "C06",
-    ["LolHtml.Thm.C06_Scan", "LolHtml.Thm.C06_Relex", "LolHtml.Thm.C06_Indep", "LolHtml.Thm.C06_Handover", "LolHtml.Thm.C06_EndTag", "LolHtml.Thm.C06_FullCtl", "LolHtml.Thm.Full"],
+    ["LolHtml.Thm.C06_Scan", "LolHtml.Thm.C06_Relex", "LolHtml.Thm.C06_Indep", "LolHtml.Thm.C06_Handover", "LolHtml.Thm.C06_EndTag", "LolHtml.Thm.C06_FullCtl", "LolHtml.Thm.C06_ScanIndep", "LolHtml.Thm.Full"],
     [{"lane": "lex", "n_quick": 4000, "n_thorough": 200000},
      {"lane": "full", "n_quick": 2000, "n_thorough": 40000}],
     LEX_RULE + "; oracle: every schedule S is also run as S u O for four observer sets O (TEXT, COMMENTS, DOCTYPES, every tag) and the events H would receive, the result and the sink bytes must be identical",
-    ["independence is proved for the lexer half (C06_independence_partial): for H whose flag sets always contain text, comments or doctypes (StickyCtl: H never drops to the tag scanner) and any observer set O, both modes, every chunking: same call results and same final state of H (H arbitrary, so its events), and same sink bytes for observer-only H (C06_independence_observing); with Model/Full, any two non-mutating configurations give the same output on successful runs (C06_real_output). The scanner<->lexer half (H's flags become empty) has the step simulation, boundary agreement, C06_relex_same_tag / C06_relex_end_tag (both hint directions) and one-event preservation lemmas at dispatcher level for every event kind in every mode combination (Thm/C06_Handover: C06_event_*), but the parser-level alignment of scanner hints with the observing lexer's lexemes (induction over hand-overs and chunk breaks) is not done: C06_independence_statement3 (on runs in which every call of both runs succeeds H ends in the same state; non-strict, EmitDiscipline, PassThroughOn an invariant, sticky observers) stays a statement + oracle there; the real controller model meets both controller hypotheses (C06_fullCtl_emitDiscipline, C06_fullCtl_passThrough); the earlier statement2 ('call results equal') was REFUTED by C06_hint_error_witness: a controller whose handle_start_tag fails gives [Err,..] in scanner mode and [Ok, Err,..] in lexer mode for writes `<a ` then `>` (the scanner calls it at the end of the tag NAME, the lexer at `>`; same mechanism as F27) — the call at which a failing start-tag handler reports depends on the mode",
+    ["scanner-mode half, rung 1 (Thm/C06_ScanIndep): with the DISPATCHERS as sinks, a plain scanner run and an observing lexer run stay aligned step by step, over a whole parsing loop, one Parser::parse call and the first write (C06_scan_indep_steps/_loop/_parse_partial/_first_write_partial; across a chunk break when both report the same consumed count: C06_scan_indep_loop_resume) — outside a tag the dispatchers are ObsR-related and H is in the same state, inside a tag the plain run is exactly one hint ahead — for controllers that answer every hint with scan (StayScan) and see names through their hash (HashOnly); C06_independence_statement3 is REFUTED at model level (C06_independence_statement3_refuted: `<a ` + end, a counting controller has seen the hint of a tag the lexer never emits; no handler runs at a hint in the real controller, so this is not a code defect) and replaced by C06_independence_statement4 (open), hand-over (R2) and hash-less names (R3) are statements",
+     "independence is proved for the lexer half (C06_independence_partial): for H whose flag sets always contain text, comments or doctypes (StickyCtl: H never drops to the tag scanner) and any observer set O, both modes, every chunking: same call results and same final state of H (H arbitrary, so its events), and same sink bytes for observer-only H (C06_independence_observing); with Model/Full, any two non-mutating configurations give the same output on successful runs (C06_real_output). The scanner<->lexer half (H's flags become empty) has the step simulation, boundary agreement, C06_relex_same_tag / C06_relex_end_tag (both hint directions) and one-event preservation lemmas at dispatcher level for every event kind in every mode combination (Thm/C06_Handover: C06_event_*), but the parser-level alignment of scanner hints with the observing lexer's lexemes (induction over hand-overs and chunk breaks) is not done: C06_independence_statement3 (on runs in which every call of both runs succeeds H ends in the same state; non-strict, EmitDiscipline, PassThroughOn an invariant, sticky observers) stays a statement + oracle there; the real controller model meets both controller hypotheses (C06_fullCtl_emitDiscipline, C06_fullCtl_passThrough); the earlier statement2 ('call results equal') was REFUTED by C06_hint_error_witness: a controller whose handle_start_tag fails gives [Err,..] in scanner mode and [Ok, Err,..] in lexer mode for writes `<a ` then `>` (the scanner calls it at the end of the tag NAME, the lexer at `>`; same mechanism as F27) — the call at which a failing start-tag handler reports depends on the mode",
      "exceptions proved as witnesses on the model: C06_F27_witness (strict mode, known finding F27) and C06_memory_witness (limit 4 bytes, `<!--aaaaaaaa`: the scanner run succeeds, the lexer run reports MemoryLimitExceeded — the retained bytes differ between the modes, so the limit is mode-dependent)",
      "known finding F27: strict-mode ParsingAmbiguity on an unterminated tag at end of input depends on the handler set",
      MODEL_SCOPE],
@@ -424,8 +427,11 @@ prop(
                 "to handle_tag (C06_relex_emit). Side-conditions PhaseOk, TextTypeOk (what F1 violated: C06_textTypeOk_rejects_F1) "
                 "and RelexOk on the generated table by decide +kernel. C06_independence_partial(+_no_panic, _gen): for every controller "
                 "H that stays in lexer mode and every observer set O, H and H u O return the same call results under every "
-                "chunking in both modes and H ends in the same state. PARTIAL: the scanner-mode half of independence is a "
-                "statement + oracle."),
+                "chunking in both modes and H ends in the same state. Scanner-mode half: parser-level alignment of a plain scanner "
+                "run with an observing lexer run, dispatchers as sinks, for controllers that stay in scanner mode "
+                "(C06_scan_indep_loop, C06_scan_indep_parse_partial, C06_scan_indep_first_write_partial). PARTIAL: the hand-over "
+                "and stream-level induction of the scanner-mode half is a statement (C06_independence_statement4; statement3 is "
+                "refuted at model level) + oracle."),
     level_note="Trusted: Lean kernel; DSL translator; the core model (lane lex).",
     technique="Lean 4 proof (simulation relation between the two machines, preserved by every table arm) + correspondence lane + H vs H u O oracle",
     design_ref="DESIGN.md section 4 C06",
